@@ -14,7 +14,7 @@ CLAIMS = {
   "note": "parking_lot slow paths stubbed with panics (sequential harness). Outside: hash vs nested-loop join equivalence, partitioned hash aggregate merge, sort merge queue, partition and thread counts, INSERT/CTAS row counts.",
   "design": "§3 C03"},
  "C05": {
-  "text": "Bounded model checking of the real ScalarFunction::execute entry points for AND/OR (2-input BinaryExecutor path; 3-input UniformExecutor path in thorough), NOT, IS [NOT] NULL/TRUE/FALSE, the six comparison operators and IS [NOT] DISTINCT FROM on integer columns: for every value of the operands (full width, symbolic) and every NULL pattern of a one-row batch (each pattern its own harness) the output row equals the Kleene / SQL definition. Known finding F8 (NULL AND false, NULL OR true) is isolated in its own harnesses.",
+  "text": "Bounded model checking of the real ScalarFunction::execute entry points for AND/OR (2-input BinaryExecutor path), NOT, IS [NOT] NULL/TRUE/FALSE, the six comparison operators and IS [NOT] DISTINCT FROM on integer columns: for every value of the operands (full width, symbolic) and every NULL pattern of a one-row batch (each pattern its own harness) the output row equals the Kleene / SQL definition. Known finding F8 (NULL AND false, NULL OR true) is isolated in its own harnesses.",
   "note": "Outside: float NaN comparison semantics, strings, date/time, CASE, overload resolution, multi-row batches and dictionary/constant input formats (thorough adds some). NULL input rows use the AllInvalid validity representation (bitmap inputs to the binary executor exceed 14 GB in CBMC).",
   "design": "§3 C05"},
  "C10": {
